@@ -300,6 +300,8 @@ def decode_schema(F, R):
             may_repeat = sp.get('repeat_in') == 'all' or pk in (sp.get('repeat_in') or [])
             if may_repeat:
                 R.ob('C01.decode-schema', '%s|0x%02X|may-repeat' % (pk, pid), info['repeat'] or not info['once'], 'a property that may appear several times is decoded through the once-only path', b.loc(sb))
+                R.ob('C01.decode-schema', '%s|0x%02X|second-occurrence-accepted' % (pk, pid), not info.get('counted_refusal'),
+                     'the arm of a property that may appear several times refuses the packet depending on how many values it has already collected: what the encoder writes for a list of them is not decoded', b.loc(sb))
     return tables
 
 
